@@ -13,6 +13,7 @@ CONSTANTS
   Solve2Modes <- Solve2OK
   Progbars <- PbOff
   Progbar0Modes <- PbOK
+  IntRepeatModes <- IrOK
   PrintCases = FALSE
 INVARIANT ConservedInv
 CHECK_DEADLOCK FALSE
